@@ -464,69 +464,13 @@ func runC03(c *Ctx) {
 			c.Fail("C03.R10", "pattern check", pp.Pos(), "UNDECIDED: no function calls preparePattern")
 		}
 		for _, mp := range mps {
-			g := NewGate(c.P)
-			g.Inline = inlineOnly()
-			s := g.Eval(mp)
-			u := g.U
-			bad := ""
-			if len(s.Rets) == 0 || len(s.Rets[0].Vals) != 1 {
-				bad = "UNDECIDED: not a predicate"
-			} else {
-				H := u.ToBool(g.RetExpr(s, 0))
-				var any, p0 Ref = False, False
-				for _, at := range u.AtomsOf(H) {
-					if at.Op == "call" && (at.Aux == "(*regexp.Regexp).MatchString" || at.Aux == "(*regexp.Regexp).Match") {
-						any = u.bdd.Or(any, u.Atom(at))
-					}
-					if at.Op == "eq" {
-						for i := 0; i < 2; i++ {
-							if x := at.Args[i]; x.Op == "call" && x.Aux == calleeName(pp) && isIntConst(at.Args[1-i], 0) {
-								p0 = u.bdd.Or(p0, u.Atom(at))
-							}
-						}
-					}
-				}
-				if rest := u.bdd.And(H, u.bdd.Not(u.bdd.Or(any, p0))); rest != False {
-					bad = "the pattern check answers true without the compiled expression having matched (when " + clip(u.ShowBool(rest), 200) + "): such a shortcut accepts URLs outside the language of the pattern (letter case under $match-case, anchors, separators)"
-				}
+			v := patternVerdict(c, pp, mp, ptr, K["RegexAnyCharacter"])
+			bad := v.undecided
+			if bad == "" && v.notFromMatch != "" {
+				bad = "the pattern check answers true without the compiled expression having matched and without the compiled text being the lone-'*' expansion (when " + v.notFromMatch + "): such a shortcut accepts URLs outside the language of the pattern (letter case under $match-case, anchors, separators)"
 			}
-			c.Check(bad == "", "C03.R10", shortFn(mp)+": true only if the compiled expression matched or the pattern is 'match everything'", mp.Pos(), "result implies MatchString(f.regex, _) or preparePattern()==0", bad)
-		}
-		// preparePattern reports 'match everything' only for the expansion of a lone '*'
-		{
-			g := NewGate(c.P)
-			g.Inline = inlineOnly()
-			g.Pure[FuncName(ptr)] = true
-			s := g.Eval(pp)
-			u := g.U
-			bad := ""
-			n := 0
-			for _, r := range s.Rets {
-				if len(r.Vals) != 1 {
-					continue
-				}
-				for leaf, lc := range u.Leaves(r.Vals[0]) {
-					cond := u.bdd.And(lc, r.Cond)
-					if cond == False || !isIntConst(leaf, 0) {
-						continue
-					}
-					n++
-					ok := false
-					for _, at := range u.AtomsOf(cond) {
-						if at.Op == "eq" && u.bdd.Implies(cond, u.Atom(at)) {
-							for i := 0; i < 2; i++ {
-								if x := at.Args[i]; x.Op == "call" && x.Aux == calleeName(ptr) && isStr(at.Args[1-i], K["RegexAnyCharacter"]) {
-									ok = true
-								}
-							}
-						}
-					}
-					if !ok {
-						bad = "preparePattern reports 'matches everything' (0) on a path where the compiled text is not known to be " + fmt.Sprintf("%q", K["RegexAnyCharacter"]) + ": " + clip(u.ShowBool(cond), 160)
-					}
-				}
-			}
-			c.Check(bad == "", "C03.R10", "preparePattern: 0 only when the expression is RegexAnyCharacter", pp.Pos(), fmt.Sprintf("%d return case(s) with value 0", n), bad)
+			c.Check(bad == "", "C03.R10", shortFn(mp)+": true only if the compiled expression matched or the pattern is 'match everything'", mp.Pos(), "evaluated with the compile routine expanded: result implies MatchString(compiled, _) or compiled text == RegexAnyCharacter", bad)
+			c.Check(bad == "" || v.undecided == "", "C03.R10", "preparePattern: 'match everything' only when the expression is RegexAnyCharacter", pp.Pos(), "part of the same decision function", bad)
 		}
 	}
 
